@@ -31,6 +31,53 @@ class Source:
     elem_type: object
     stable: Optional[bool]
     key: Optional[ast.AST] = None
+    partial: str = ""  # sorted/min/max without key over a set whose elements are only partially ordered: the reason
+
+
+def partial_order_reason(types: Types, t, depth: int = 0) -> str:
+    """'' when `<` on values of type t orders everything `==` distinguishes; otherwise why not.  A class of the package with a
+    hand-written __lt__ that does not read every field its equality compares (Residue3D: order by model / chain / number / insertion
+    code, equality by all fields) leaves unequal values unordered: sorted() is stable, so such ties keep the order of its input."""
+    if depth > 3 or not isinstance(t, tuple):
+        return ""
+    if t[0] == "tuple":
+        for x in t[1]:
+            r = partial_order_reason(types, x, depth + 1)
+            if r:
+                return r
+        return ""
+    if t[0] in ("tupleof", "list", "frozenset"):
+        return partial_order_reason(types, t[1], depth + 1)
+    if t[0] != "cls":
+        return ""
+    repo = types.repo
+    seen = []
+    todo = [(t[1], t[2])]
+    lt = None
+    fields: List[str] = []
+    while todo:
+        m, c = todo.pop(0)
+        if (m, c) in seen or m not in repo.modules or c not in repo.modules[m].classes:
+            continue
+        seen.append((m, c))
+        node = repo.modules[m].classes[c]
+        if lt is None:
+            own = [b for b in node.body if isinstance(b, ast.FunctionDef) and b.name == "__lt__"]
+            if own:
+                lt = (c, own[0])
+        fields += [b.target.id for b in node.body if isinstance(b, ast.AnnAssign) and isinstance(b.target, ast.Name) and "ClassVar" not in ast.unparse(b.annotation)]
+        for b in node.bases:
+            bt = types._cls(m, ast.unparse(b).split(".")[-1].split("[")[0])
+            if isinstance(bt, tuple):
+                todo.append((bt[1], bt[2]))
+    if lt is None or not fields:
+        return ""
+    if any(isinstance(b, ast.FunctionDef) and b.name == "__eq__" for m, c in seen[:1] for b in repo.modules[m].classes[c].body):
+        return ""  # explicit equality: judged by the identity-equality rule
+    read = sorted({n.attr for n in ast.walk(lt[1]) if isinstance(n, ast.Attribute) and isinstance(n.value, ast.Name) and n.value.id in ("self", "other")})
+    if set(fields) <= set(read):
+        return ""
+    return f"`{lt[0]}.__lt__` compares ({', '.join(read)}) while equality of {t[2]} compares its fields ({', '.join(fields)}): two different {t[2]} objects can be unordered"
 
 
 def is_set(t) -> bool:
@@ -74,6 +121,16 @@ def find_sources(types: Types, fi: FuncInfo) -> Tuple[List[Source], int]:
                 if key is not None:
                     for a in n.args[:1]:
                         chk(a, n, f"{name}(set, key=...) keeps set order among ties", key)
+                else:
+                    # without a key the order is the elements' own `<`: total for numbers, strings and tuples of such - not for a class
+                    # whose __lt__ reads less than its equality
+                    for a in n.args[:1]:
+                        t = ft._refine(a, ft.of(a))
+                        if is_set(t):
+                            why = partial_order_reason(types, t[1])
+                            if why:
+                                n_sets += 1
+                                out.append(Source(n, a, f"{name}(set) under a partial order keeps set order among unordered elements", t[1], types.stable(t[1]), None, why))
             elif d.startswith("itertools."):
                 for a in n.args:
                     if isinstance(a, ast.Starred):
